@@ -5,6 +5,7 @@ from sym import fmt, walk
 from callgraph import CallGraph
 from rules.common import adt_base, Anchors, path_calls, ret_kind, root_param, arg_locs
 import stdmodel as SM
+from rules.streams import norm
 
 LEVEL = 'other'       # was 'proof': seeded changes twice found a channel the reduction had not listed (DESIGN.md §7.6), so the honest level is structural
 NEED_FIXTURE = True
@@ -315,6 +316,54 @@ def r11_6(ctx, scope):
     ctx.check(R, 'ctl_bufwriter_drop' in hit, 'control-bufwriter', 'the rule no longer fires on the fixture\'s unflushed BufWriter: checker broken', kind='violation', detail=hit)
 
 
+def r11_7(ctx, scope):
+    """fail fast: once a fallible operation on the sink has been started, nothing else touches the builder before its outcome is
+    looked at - `let r = self.compile_from(..); self.unfinished.add_suffix(..); r` runs the bookkeeping on a builder whose write
+    failed (and trips its assertions: a panic instead of Err(Io))"""
+    R = ctx.rule('R11.7', 'fail fast: no builder state is touched between a fallible sink operation and the test of its result', floor=20)
+    lib = ctx.lib
+    from facts import is_mut_ref
+    n = 0
+    for path, f in sorted(scope.items()):
+        if f.kind == 'Closure' or not any(True for _ in result_locals_from_calls(f)):
+            continue
+        res_bids = {bid for bid, t, l, ty in result_locals_from_calls(f)}
+        bad = {}
+        for p in explore(f, max_visits=1, havoc=True, limit=1500):
+            calls = path_calls(p, expand=False)
+            for (k0, bid0, callee0, args0, t0) in calls:
+                if bid0 not in res_bids:
+                    continue
+                ce = norm(p.sym.call_expr_at((k0, 'T')))
+                k1 = None
+                for d in p.decisions:
+                    if d[0] >= k0 and any(norm(x) == ce for x in walk(d[2]) if x[0] == 'call'):
+                        k1 = d[0]
+                        break
+                if k1 is None:
+                    k1 = len(p.blocks)
+                n += 1
+                for (k, bid, callee, args, t) in calls:
+                    if not (k0 < k < k1) or not isinstance(callee, str):
+                        continue
+                    touches = False
+                    for ai, a in enumerate(t['args']):
+                        pl = a.get('copy') or a.get('move')
+                        if pl is None or pl['proj'] or not is_mut_ref(f.local_ty(pl['local'])):
+                            continue
+                        l = f.refmap().get(pl['local'], (pl['local'],))
+                        if l[:1] == (1,):
+                            touches = True
+                    if touches and (callee in lib.fns or SM.is_grow(callee)):
+                        bad.setdefault((bid0, bid), (callee0, callee, t))
+        for (b0, b1), (c0, c1, t) in sorted(bad.items()):
+            ctx.violation(R, 'pending:%s' % path, 'the result of %s is still untested when %s modifies the builder: after a failed write the bookkeeping runs on a half-updated builder (assertions trip, the caller sees a panic or a later, unrelated error)' % (
+                c0.rsplit('::', 1)[-1], c1.rsplit('::', 1)[-1]), fn=f, at=t.get('span'))
+        if not bad:
+            ctx.ok(R, 'fn:' + path, None, fn=f)
+    ctx.count('fallible_calls_followed', n)
+
+
 def run(ctx):
     lib = ctx.lib
     A = Anchors(lib)
@@ -351,3 +400,4 @@ def run(ctx):
             s['rule'] = 'R11.4'
     ctx.step(r11_5, ctx)
     ctx.step(r11_6, ctx, scope)
+    ctx.step(r11_7, ctx, scope)
